@@ -36,7 +36,7 @@ open Infretis.Fs
 theorem crash_outcome (cfg : Cfg) (M : Manifest) (m : Mem) (c : Choice) (d : Disk)
     (hI : Inv M m d) (hW : WF cfg M m c d) (k : Nat) (half : Bool) :
     (∃ r, restartOutcome M .restartToml (crashStep cfg m c d k half) = .starts r)
-    ∨ (cfg.variant = .asIs ∧ k = restartIdx cfg m c d + 1
+    ∨ (inTruncWindow cfg m c d k = true
         ∧ restartOutcome M .restartToml (crashStep cfg m c d k half) = .raises) := by
   by_cases hk : (stepEffs cfg m c d).length ≤ k
   · obtain ⟨hn, hf, _⟩ := crash_complete cfg M m c d hI hW k half hk
@@ -49,12 +49,12 @@ theorem crash_outcome (cfg : Cfg) (M : Manifest) (m : Mem) (c : Choice) (d : Dis
     obtain ⟨r, hr, _, hact, _, hrf⟩ := hI.record
     have hrr : r = r0 := by rw [hr] at hr0; injection hr0
     subst hrr
-    rcases hcl with ⟨ho, _⟩ | ⟨hv, hk, ht⟩
+    rcases hcl with ⟨ho, _⟩ | ⟨hw, ht⟩
     · left
       exact ⟨r, outcome_starts M _ r m.live ho hrf hact (fun p hp =>
         ⟨old_live_safe cfg M m c d hI hW k half p hp, (hI.live_ok p hp).2.2⟩)⟩
     · right
-      exact ⟨hv, hk, outcome_raises_of_torn M _ ht⟩
+      exact ⟨hw, outcome_raises_of_torn M _ ht⟩
 
 /-- **crash_restartable** (repaired `write_toml`: temp file + os.replace): after a crash at ANY
     point of ANY step the restart starts. -/
@@ -63,7 +63,7 @@ theorem crash_restartable (cfg : Cfg) (M : Manifest) (m : Mem) (c : Choice) (d :
     ∃ r, restartOutcome M .restartToml (crashStep cfg m c d k half) = .starts r := by
   rcases crash_outcome cfg M m c d hI hW k half with h | ⟨h, _⟩
   · exact h
-  · rw [hv] at h; cases h
+  · simp [inTruncWindow, hv] at h
 
 /-- **crash_restartable_partial** (the code as it is): the restart starts at every crash point
     outside the truncation window `k = restartIdx + 1`. -/
@@ -71,9 +71,9 @@ theorem crash_restartable_partial (cfg : Cfg) (M : Manifest) (m : Mem) (c : Choi
     (hI : Inv M m d) (hW : WF cfg M m c d) (k : Nat) (half : Bool)
     (hwin : inTruncWindow cfg m c d k = false) :
     ∃ r, restartOutcome M .restartToml (crashStep cfg m c d k half) = .starts r := by
-  rcases crash_outcome cfg M m c d hI hW k half with h | ⟨hv, hk, _⟩
+  rcases crash_outcome cfg M m c d hI hW k half with h | ⟨hw, _⟩
   · exact h
-  · simp [inTruncWindow, hv, hk] at hwin
+  · rw [hwin] at hw; cases hw
 
 /-- the window is sharp: as-is, a crash between the truncating open and the completed write of
     restart.toml ALWAYS leaves a state from which the restart raises (both sub-states). -/
@@ -81,21 +81,27 @@ theorem crash_in_window_raises (cfg : Cfg) (M : Manifest) (m : Mem) (c : Choice)
     (hI : Inv M m d) (hW : WF cfg M m c d) (k : Nat) (half : Bool)
     (hwin : inTruncWindow cfg m c d k = true) :
     restartOutcome M .restartToml (crashStep cfg m c d k half) = .raises := by
-  simp only [inTruncWindow, Bool.and_eq_true, beq_iff_eq] at hwin
-  obtain ⟨hv, hk⟩ := hwin
   obtain ⟨r0, hr0, _⟩ := hI.record
   have hown := loop_owned cfg M m c d hW
   have hLA : (loopEffs cfg m c d).length = (accLoop cfg c.accs m.trajNum m.olds d).length := rfl
-  have hk' : (loopEffs cfg m c d).length ≤ k := by rw [hk]; unfold restartIdx; omega
+  have hcase : (cfg.variant = .asIs ∧ k = restartIdx cfg m c d + 1)
+      ∨ (cfg.variant = .renamedOpen ∧ k = restartIdx cfg m c d + 2) := by
+    unfold inTruncWindow at hwin
+    cases hv : cfg.variant <;> simp [hv] at hwin
+    · exact Or.inl ⟨rfl, hwin⟩
+    · exact Or.inr ⟨rfl, hwin⟩
+  have hk' : (loopEffs cfg m c d).length ≤ k := by
+    rcases hcase with ⟨_, hk⟩ | ⟨_, hk⟩ <;> rw [hk] <;> unfold restartIdx <;> omega
   have hr1 : (run (loopEffs cfg m c d) d).restart = .complete r0 := by
     rw [(run_frame hown d).2.2.1]; exact hr0
   obtain ⟨_, _, _, _, t5, _⟩ := tail_spec c cfg.variant (newRec m c) r0 _ hr1
     (k - (loopEffs cfg m c d).length) half
   rw [crash_split_ge cfg m c d k half hk']
   apply outcome_raises_of_torn
-  apply t5 hv
-  rw [hk]; unfold restartIdx
-  omega
+  apply t5
+  rcases hcase with ⟨hv, hk⟩ | ⟨hv, hk⟩
+  · left; refine ⟨hv, ?_⟩; rw [hk]; unfold restartIdx; omega
+  · right; refine ⟨hv, ?_⟩; rw [hk]; unfold restartIdx; omega
 
 /-! ## files of live paths -/
 
@@ -120,7 +126,7 @@ theorem crash_paths_present (cfg : Cfg) (M : Manifest) (m : Mem) (c : Choice) (d
     obtain ⟨r', hr', _, hact, _, _⟩ := hI.record
     have hrr : r' = r0 := by rw [hr'] at hr0; injection hr0
     subst hrr
-    rcases hcl with ⟨ho, _⟩ | ⟨_, _, ht⟩
+    rcases hcl with ⟨ho, _⟩ | ⟨_, ht⟩
     · have : r = r' := by rw [ho] at hr; injection hr with h; exact h.symm
       subst this
       rw [hact] at ha
@@ -202,7 +208,7 @@ theorem crash_restore_inv_gen (cfg : Cfg) (M : Manifest) (m : Mem) (c : Choice) 
     obtain ⟨r', hr', hcs, hact, htn, _⟩ := hI.record
     have hrr : r' = r0 := by rw [hr'] at hr0; injection hr0
     subst hrr
-    rcases hcl with ⟨ho, hd, n, hrows, hg⟩ | ⟨_, _, ht⟩
+    rcases hcl with ⟨ho, hd, n, hrows, hg⟩ | ⟨_, ht⟩
     · have : r = r' := by rw [ho] at hr; injection hr with h; exact h.symm
       subst this
       have hsafe := old_live_safe cfg M m c d hI hW k half
@@ -319,7 +325,7 @@ theorem continue_reissues_inflight (cfg : Cfg) (M : Manifest) (m : Mem) (c : Cho
     have : r = newRec m c := by rw [hn] at hr; injection hr with h; exact h.symm
     right; exact ⟨this, by rw [this]; rfl⟩
   · obtain ⟨r0, hr0, hcl⟩ := crash_incomplete cfg M m c d hI hW k half (Nat.lt_of_not_le hk)
-    rcases hcl with ⟨ho, _⟩ | ⟨_, _, ht⟩
+    rcases hcl with ⟨ho, _⟩ | ⟨_, ht⟩
     · have : r = r0 := by rw [ho] at hr; injection hr with h; exact h.symm
       left; exact ⟨by rw [this]; exact hr0, Nat.lt_of_not_le hk⟩
     · rcases ht with ht | ht <;> rw [ht] at hr <;> cases hr
@@ -416,6 +422,21 @@ example : restartOutcome M .restartToml (crashStep cfgRep m0 c0 d0 13 false) = .
     ∧ restartOutcome M .restartToml (crashStep cfgRep m0 c0 d0 13 true) = .starts r0
     ∧ restartOutcome M .restartToml (crashStep cfgRep m0 c0 d0 14 false) = .starts r0
     ∧ restartOutcome M .restartToml (crashStep cfgRep m0 c0 d0 15 false) = .starts (newRec m0 c0) := by
+  decide
+
+open Witness in
+/-- **crash_renamed_before_flush_counterexample** (a seeded variant, not the code): if
+    `os.replace(tmp, "restart.toml")` runs while the temp file is still open, the TOML is still in
+    the write buffer: a crash right after the rename (k = 14: "after effect 13") leaves an empty
+    restart.toml, a partial flush a half-written one; before the rename and after the close the
+    restart starts. -/
+theorem crash_renamed_before_flush_counterexample :
+    let cfg : Cfg := { cfgRep with variant := .renamedOpen }
+    restartOutcome M .restartToml (crashStep cfg m0 c0 d0 13 false) = .starts r0
+    ∧ restartOutcome M .restartToml (crashStep cfg m0 c0 d0 14 false) = .raises
+    ∧ restartOutcome M .restartToml (crashStep cfg m0 c0 d0 14 true) = .raises
+    ∧ restartOutcome M .restartToml (crashStep cfg m0 c0 d0 15 false) = .starts (newRec m0 c0)
+    ∧ inTruncWindow cfg m0 c0 d0 14 = true := by
   decide
 
 open Witness in
